@@ -22,24 +22,32 @@ for name in sorted(os.listdir(os.path.join(ROOT, "seeded"))):
         subprocess.run(["rsync", "-a", "--exclude", ".git", "--exclude", "__pycache__", "/repo/", scratch + "/"], check=True)
         r = subprocess.run(["patch", "-p1", "-s", "-i", os.path.join(d, "patch.diff")], cwd=scratch, capture_output=True, text=True)
         if r.returncode != 0:
-            rows.append((name, prop, "patch does not apply", 0, ""))
+            rows.append((name, prop, "patch does not apply", 0, "", ""))
             continue
         t0 = time.time()
         env = dict(os.environ, VERIF_REPO=scratch, VERIF_SEED=a.seed, VERIF_EVIDENCE_DIR=os.path.join(scratch, ".ev"))
         r = subprocess.run([os.path.join(ROOT, "check"), prop, "--tier", "quick"], env=env, capture_output=True, text=True)
         kinds = sorted({l.split("kind=")[1].split()[0] for l in r.stdout.splitlines() if "violation kind=" in l})
-        rows.append((name, prop, r.returncode, round(time.time() - t0, 1), ",".join(kinds)))
-        print(f"{name:50s} {prop} exit={r.returncode} {time.time()-t0:5.1f}s {','.join(kinds)}", flush=True)
+        # the replay file named on the VIOLATION line must reproduce the violation from a fresh process (same changed tree)
+        rep = ""
+        vl = [l for l in r.stdout.splitlines() if l.startswith("VIOLATION ")]
+        if vl and "replay=" in vl[0]:
+            path = vl[0].split("replay=")[1].strip()
+            rr = subprocess.run([os.path.join(ROOT, "check"), prop, "--replay", path], env=env, capture_output=True, text=True)
+            rep = "replay reproduces" if rr.returncode == 1 else f"REPLAY DOES NOT REPRODUCE (exit {rr.returncode})"
+        rows.append((name, prop, r.returncode, round(time.time() - t0, 1), ",".join(kinds), rep))
+        print(f"{name:50s} {prop} exit={r.returncode} {time.time()-t0:5.1f}s {','.join(kinds)} [{rep}]", flush=True)
     finally:
         shutil.rmtree(scratch, ignore_errors=True)
 missed = [r for r in rows if r[2] != 1]
 print(f"{len(rows) - len(missed)}/{len(rows)} seeded changes caught by their targeted quick check; missed: {[r[0] for r in missed]}")
+print("replays that do not reproduce:", [r[0] for r in rows if r[5].startswith("REPLAY")])
 if a.md:
     with open(a.md, "w") as f:
         f.write("# Seeded changes (written by independent sub-agents that saw only the property text)\n\nRe-run with `tools/run_seeded.py --md seeded/RESULTS.md` "
                 f"(quick tier, VERIF_SEED={a.seed}). Every change keeps the repository's 1 448 tests green (see each meta.json).\n\n"
-                "| seeded change | property | exit of the targeted quick check | seconds | violation kinds reported |\n|---|---|---|---|---|\n")
+                "| seeded change | property | exit of the targeted quick check | seconds | violation kinds reported | replay file |\n|---|---|---|---|---|---|\n")
         for r in rows:
-            f.write(f"| {r[0]} | {r[1]} | {r[2]} | {r[3]} | {r[4]} |\n")
+            f.write(f"| {r[0]} | {r[1]} | {r[2]} | {r[3]} | {r[4]} | {r[5]} |\n")
         f.write(f"\n{len(rows) - len(missed)}/{len(rows)} caught.\n")
 sys.exit(1 if missed else 0)
